@@ -82,6 +82,9 @@ def likely(prog, rep):
             for kind, n in zip(('lang', 'script', 'region'), v):
                 if n is not None and not wellformed(kind, tab.dec(n, WIDTH[kind], order)):
                     illf.append('value %d decodes to %r, not a canonical %s' % (n, tab.dec(n, WIDTH[kind], order), kind))
+                elif n is not None and kind == 'lang' and tab.dec(n, WIDTH[kind], order) == b'und':
+                    # the unchecked constructor would build Language(Some("und")): prints like the empty language, compares unequal to it
+                    illf.append('value %d decodes to the text "und": the undetermined language is the empty Language, it has no integer form' % n)
         rep.ob('tab:%s:wellformed' % role, 'TAB-DECODE', name, t['span'], '%s: every stored integer decodes (%s-endian) to a well-formed canonical subtag' % (role, order), not illf,
                detail='; '.join(illf[:4]), how='%d integers decoded' % sum(len(k) + 3 for k, v in rows))
         # C07: every value has all three components; C06: value agrees with its key on the key's own components
